@@ -49,10 +49,19 @@ def eq_typed(a, b):
             and repr(a.time) == repr(b.time))
 
 
-def judge_message(ctx, t, a, tm):
+def judge_message(ctx, t, a, tm, builder='ctor'):
     case = lambda: {'kind': 'msg', 'type': t, 'attrs': a if len(repr(a)) < 300 else {'data_len': len(a['data'])},  # noqa: E731
-                    'time': repr(tm)}
-    m = Message(t, time=tm, **a)
+                    'time': repr(tm), 'builder': builder}
+    if builder == 'ctor':
+        m = Message(t, time=tm, **a)
+    else:
+        # a valid message built with skip_checks=True (values are valid, containers vary)
+        kw = dict(a)
+        if 'data' in kw:
+            kw['data'] = {'skip-list': list, 'skip-bytes': bytes, 'skip-gen': (lambda d: (x for x in d))}[builder](kw['data'])
+        m = Message(t, skip_checks=True, time=tm, **kw)
+        ctx.check('from_dict(m.dict()) == m', m == Message(t, time=tm, **a), f'skip_checks-differs:{builder}', case,
+                  lambda: repr(vars(m))[:120])
     try:
         s = str(m)
         back = Message.from_str(s)
@@ -282,6 +291,8 @@ def run(ctx):
                 continue
             for tm in (TIMES if (ai % 5 == 0) else (TIMES[(ai + ti) % len(TIMES)], TIMES[(ai * 7 + 3) % len(TIMES)])):
                 judge_message(ctx, t, a, tm)
+                if t == 'sysex' or ai % 4 == 0:
+                    judge_message(ctx, t, a, tm, builder=('skip-list', 'skip-bytes', 'skip-gen')[(ai + ti) % 3])
                 ctx.nontrivial((t, tuple(sorted(a.items())), repr(tm)))
                 n += 1
     if ctx.shard == 1 % ctx.nshards:
@@ -310,7 +321,9 @@ def run(ctx):
             ctx.nontrivial(('track', safe_repr(tr)))
             n += 1
         fmt, div, tracks = genfile.rand_file_events(rng, ('end', 'absent'), small=True, nmax=6)
-        mid = genfile.midifile_of(fmt, div, tracks)
+        mid = genfile.midifile_of(fmt, div, tracks, charset=rng.choice(('latin1', 'latin1', 'utf-8', 'cp1250', 'shift_jis')))
+        if rng.random() < 0.3:
+            mid.debug, mid.clip = True, True          # other constructor options must not break the repr either
         if rng.random() < 0.3:
             mid.tracks.append(MidiTrack([Message('note_on', time=1.5)]))
         if rng.random() < 0.5:
